@@ -94,6 +94,16 @@ def gen_mass_case(rng, idx):
         hi = min(hi, 0.95)
     if lo > hi:
         lo = hi
+    case = _mass_case(rng, idx, eng, rated, n, lo, hi)
+    top = max([max(q[0] for q in e["points"]) for e in eng.get("emissions", [])] + [0.0])
+    if top > 1.0:       # overload operation, inside what a curve covers (the others are extrapolated the same way by code and oracle)
+        hi = top
+        case["powers"][0] = float(np.round(rng.uniform(1.01, hi) * rated, 2))
+        case["geared"] = False
+    return case
+
+
+def _mass_case(rng, idx, eng, rated, n, lo, hi):
     return {"idx": idx, "kind": "mass", "engine": eng, "rated": rated, "geared": bool(rng.random() < 0.3),
             "powers": [float(np.round(rng.uniform(lo, hi) * rated * (0.9 if hi <= 1.0 else 0.97), 2)) if rng.random() < 0.85 else 0.0 for _ in range(n)],
             "dt": [float(rng.choice([1.0, 60.0, 900.0, 3600.0])) for _ in range(n)]}
